@@ -3,8 +3,8 @@ import os, sys
 sys.path.insert(0, os.path.dirname(__file__))
 from transplant import *
 
-DST = "/verif/harness/k_misc/src/gen"
-H = "/verif/harness/k_misc/src"
+DST = os.path.join(os.path.dirname(os.path.dirname(os.path.abspath(__file__))), "harness", *"k_misc/src/gen".split("/"))
+H = os.path.join(os.path.dirname(os.path.dirname(os.path.abspath(__file__))), "harness", *"k_misc/src".split("/"))
 
 
 def generate():
